@@ -5,6 +5,7 @@
 //!   fih random --prim P --flavour F --consts JSON --seed S --runs N --len L --out FILE
 
 mod engine;
+mod event;
 mod infra;
 mod mutex;
 mod semaphore;
@@ -39,6 +40,9 @@ fn make_sut(prim: &str, flavour: &str, consts: &Value) -> Option<Box<dyn Sut>> {
         ("semaphore", "vlock") => Box::new(semaphore::SemSut::<GenericSemaphore<VLock>>::new(consts)),
         ("semaphore", "shared") => Box::new(semaphore::SemSut::<GenericSharedSemaphore<Pl>>::new(consts)),
         ("semaphore", "shared-vlock") => Box::new(semaphore::SemSut::<GenericSharedSemaphore<VLock>>::new(consts)),
+        ("event", "local") => Box::new(event::EventSut::<Noop>::new(consts)),
+        ("event", "pl") => Box::new(event::EventSut::<Pl>::new(consts)),
+        ("event", "vlock") => Box::new(event::EventSut::<VLock>::new(consts)),
         _ => return None,
     })
 }
@@ -102,7 +106,7 @@ fn cmd_replay(args: &[String]) -> i32 {
                 paths += 1;
                 steps += res.steps;
                 skipped += res.skipped;
-                let header = json!({"op": "reset", "prim": prim, "flavour": flavour, "consts": consts,
+                let header = json!({"op": "run_start", "prim": prim, "flavour": flavour, "consts": consts,
                                     "path": id, "source": tours});
                 if let Some((at, why)) = &res.drift {
                     let file = format!("{}/{}.{}.path{}.drift.ndjson", outdir, prim, flavour, id);
@@ -146,7 +150,7 @@ fn cmd_exec(args: &[String]) -> i32 {
             continue;
         }
         let e: Value = serde_json::from_str(&line).expect("op json");
-        if e["op"] == "reset" {
+        if e["op"] == "run_start" {
             continue;
         }
         r.step(&e, None, false);
@@ -156,7 +160,7 @@ fn cmd_exec(args: &[String]) -> i32 {
     let mut h = header.clone();
     h["prim"] = json!(prim);
     h["flavour"] = json!(flavour);
-    h["op"] = json!("reset");
+    h["op"] = json!("run_start");
     write_trace(out, &h, &res.recorded);
     println!("{}", json!({"steps": res.steps, "skipped": res.skipped, "events": res.recorded.len()}));
     0
@@ -178,7 +182,7 @@ fn cmd_random(args: &[String]) -> i32 {
             Some(s) => s,
             None => return 2,
         };
-        let header = json!({"op": "reset", "prim": prim, "flavour": flavour, "consts": consts, "seed": seed, "run": run});
+        let header = json!({"op": "run_start", "prim": prim, "flavour": flavour, "consts": consts, "seed": seed, "run": run});
         writeln!(f, "{}", header).unwrap();
         let mut r = Runner::new(sut.as_mut(), flavour == "vlock");
         for _ in 0..len {
